@@ -418,6 +418,213 @@ def judge_kfill(case, out):
     return "descriptors delivered differ from those that fit: expected " + exp
 
 
+# ------------------------------------------------------------------ arbitrary control-buffer contents
+
+M64 = 1 << 64
+RAW_SLACK_NS = 3 * 10**9
+
+
+def py_walk(img, ctl, kernel=False):
+    """the kernel's view of a control buffer: for (c = CMSG_FIRSTHDR; c; c = CMSG_NXTHDR(c)) { if (!CMSG_OK(c)) stop }.
+    CMSG_OK: 16 <= cmsg_len <= msg_controllen - offset.  Stepping: userland CMSG_NXTHDR (strictly more than a header must
+    remain after the aligned message) or, kernel=True, the kernel's __cmsg_nxthdr (a header must fit).
+    Returns ([(off, len, level, type)], stop) with stop = ("done",) | ("malformed", off, len, level, type)."""
+    hs = []
+    if ctl < 16:
+        return hs, ("done",)
+    off = 0
+    while True:
+        l, lv, ty = struct.unpack_from("<QII", img, off)
+        if l < 16 or l > ctl - off:
+            return hs, ("malformed", off, l, lv, ty)
+        hs.append((off, l, lv, ty))
+        nxt = off + align8(l)
+        if (nxt + 16 > ctl) if kernel else (nxt + 16 >= ctl):
+            return hs, ("done",)
+        off = nxt
+
+
+def py_rights(img, hs):
+    out = []
+    for (off, l, lv, ty) in hs:
+        if lv == 1 and ty == 1:
+            n = (l - 16) // 4
+            out.append(list(struct.unpack_from("<%di" % n, img, off + 16)))
+    return out
+
+
+def fmt_rights(ms):
+    return "ok" + "".join(" %d:%s" % (len(f), ",".join(str(x) for x in f)) for f in ms)
+
+
+def fmt_walk(hs, stop):
+    a = ",".join("%d:%d:%d:%d" % h for h in hs) if hs else "-"
+    b = "done" if stop[0] == "done" else "malformed@%d:%d:%d:%d" % stop[1:]
+    return a + " " + b
+
+
+def raw_class(img, ctl):
+    """clean: the property as stated must hold (stop cleanly, exactly the well-formed prefix, nothing outside the buffer);
+    hostile-rights / hostile-overflow: the two input classes on which the code as it is does not (known findings)"""
+    hs, stop = py_walk(img, ctl)
+    if stop[0] == "done":
+        return "clean"
+    _, off, l, lv, ty = stop
+    if lv == 1 and ty == 1:
+        return "hostile-rights"
+    if l >= 16 and l + 23 >= M64:
+        return "hostile-overflow"
+    return "clean"
+
+
+def gen_raw(ctx, thorough):
+    r = ctx.rng
+    out = {}
+
+    def layout(msgs, padfill):
+        """msgs = [(len_field, level, type, payload bytes)] laid out back to back at CMSG_ALIGN; returns (bytes, offsets)"""
+        b = bytearray()
+        offs = []
+        for (l, lv, ty, pay) in msgs:
+            offs.append(len(b))
+            b += struct.pack("<QII", l % M64, lv % (1 << 32), ty % (1 << 32)) + pay
+            while len(b) % 8:
+                b.append(padfill())
+        return b, offs
+
+    def add(body, ctl, tailkind):
+        body = bytearray(body)
+        stale = enc_rights([99]) + bytes(4)
+        tail_len = r.choice([0, 0, 8, 16, 24, 40])
+        if tailkind == 0:
+            tail = bytes(tail_len)
+        elif tailkind == 1:
+            tail = (stale * 3)[:tail_len]
+        else:
+            tail = r.bytes(tail_len)
+        img = bytes(body) + tail
+        img += bytes((-len(img)) % 8)
+        if len(img) == 0:
+            img = bytes(8)
+        ctl = max(0, min(ctl, len(img)))
+        # the one address-dependent outcome (cmsg + cmsg_len overflowing or not) is kept out of the comparison: the
+        # lengths offered to an SCM_RIGHTS header are < 2^64 - 2^48 (never overflows) or >= 2^64 - 2^16 (always does)
+        hs, stop = py_walk(img, ctl)
+        if stop[0] == "malformed" and stop[3] == 1 and stop[4] == 1 and M64 - (1 << 48) <= stop[2] < M64 - (1 << 16):
+            return
+        out["cmsgraw %d %s" % (ctl, C.hexs(img))] = (img, ctl)
+
+    def rand_msg():
+        k = r.below(6)
+        if k <= 2:
+            fds = [r.choice([0, 1, 3, 7, 1000, 2**31 - 1, -1 % (1 << 32), r.below(70000)]) for _ in range(r.choice([0, 1, 1, 2, 3, 5]))]
+            pay = b"".join(struct.pack("<I", f) for f in fds)
+            return (16 + len(pay), 1, 1, pay)
+        if k == 3:          # SCM_CREDENTIALS: pid, uid, gid
+            return (28, 1, 2, struct.pack("<III", r.below(70000), r.below(70000), r.below(70000)))
+        lv, ty = r.choice([(0, 0), (1, 3), (1, 0), (0, 1), (41, 50), (6, 1), (1, 257), (257, 1), (2**32 - 1, 2**32 - 1), (1, 2**32 - 1)])
+        n = r.choice([0, 0, 1, 4, 7, 8, 12, 16, 33])
+        return (16 + n, lv, ty, r.bytes(n))
+
+    lens_small = [0, 1, 8, 15, 16, 17, 19, 20, 23, 24, 31, 32, 33, 4096, 65536]
+    lens_huge = [2**31, 2**32, 2**32 + 16, 2**63 - 1, 2**63 + 15, 2**63 + 19, 2**63 + 20, 2**63 + 32, M64 - (1 << 48) - 1,
+                 M64 - 65536, M64 - 4096, M64 - 25, M64 - 24, M64 - 23, M64 - 17, M64 - 16, M64 - 9, M64 - 8, M64 - 7, M64 - 1]
+    levels = [0, 1, 2, 41, 257, 2**32 - 1, 2**31]
+    n_lists = 40 if not thorough else 400
+    for _ in range(n_lists):
+        msgs = [rand_msg() for _ in range(r.range(1, 4))]
+        padfill = r.choice([lambda: 0, lambda: 0xAA, lambda: r.below(256)])
+        body, offs = layout(msgs, padfill)
+        total = len(body)
+        tk = r.below(3)
+        # the valid list itself: controllen = the whole, and as the kernel reports it for a last message cut at its unpadded end
+        add(body, total, tk)
+        last_end = offs[-1] + msgs[-1][0]
+        add(body, last_end, tk)
+        # controllen moved: into the last header, into its payload, one short, one header short, beyond the data
+        for ctl in sorted(set([offs[-1], offs[-1] + r.range(1, 15), offs[-1] + 16, last_end - 1, total - 1, total - 8, total - 16,
+                               total + 8, total + 16, 0, 8, 15, 16, 17, 24])):
+            if 0 <= ctl:
+                add(body + bytes(16), ctl, tk) if ctl > total else add(body, ctl, tk)
+        # one field of one header mutated at a time
+        for i in range(len(msgs)):
+            (l, lv, ty, pay) = msgs[i]
+            rem = total - offs[i]
+            cand = lens_small + [l - 1, l + 1, l + 3, l + 4, l + 8, rem, rem + 1, rem + 3, rem + 4, rem + 8, rem - 1]
+            cand = r.shuffle(sorted(set(c for c in cand if 0 <= c)))[:(8 if not thorough else 40)] + r.shuffle(lens_huge)[:(4 if not thorough else 20)]
+            for nl in cand:
+                m2 = list(msgs)
+                m2[i] = (nl, lv, ty, pay)
+                b2, _ = layout(m2, padfill)
+                add(b2, total, tk)
+            for nlv in levels:
+                m2 = list(msgs)
+                m2[i] = (l, nlv, ty, pay)
+                b2, _ = layout(m2, padfill)
+                add(b2, total, tk)
+            for nty in levels:
+                m2 = list(msgs)
+                m2[i] = (l, lv, nty, pay)
+                b2, _ = layout(m2, padfill)
+                add(b2, total, tk)
+    # single headers: every interesting length x (rights, credentials, unknown) x buffer of 16 / 24 / 32 / 48 bytes
+    for l in lens_small + lens_huge:
+        for (lv, ty) in ((1, 1), (1, 2), (0, 0), (41, 50)):
+            for ctl in (16, 24, 32, 48):
+                add(struct.pack("<QII", l, lv, ty) + bytes([7, 0, 0, 0] * ((ctl - 16) // 4)), ctl, 0)
+    # chains of minimal headers (the trailing 16-byte slot), rights and foreign mixed
+    for k in range(1, 7):
+        for pat in range(1 << k) if k <= 3 else [r.below(1 << k) for _ in range(6)]:
+            b = b"".join(struct.pack("<QII", 16, 1, 1 if (pat >> j) & 1 else 2) for j in range(k))
+            add(b, len(b), 0)
+            add(b + struct.pack("<I", 5) + bytes(4), len(b) + 4, 0)
+    # random: random field values from the pools / random bytes with a small length field / plain random bytes
+    for _ in range(150 if not thorough else 3000):
+        n = r.choice([16, 24, 32, 40, 48, 64, 96, 128])
+        b = bytearray(r.bytes(n))
+        mode = r.below(3)
+        if mode < 2:
+            off = 0
+            while off + 16 <= n:
+                l = r.choice([16, 16, 20, 24, 28, 32, r.below(64), r.choice(lens_small), r.choice(lens_huge)]) if mode == 0 else r.below(48)
+                lv, ty = r.choice([(1, 1), (1, 1), (1, 2), (0, 0), (r.below(4), r.below(4))])
+                struct.pack_into("<QII", b, off, l, lv, ty)
+                off += max(16, align8(l)) if l < 4096 else 16
+        add(b, r.choice([n, n, n - 1, n - 4, n - 8, r.below(n + 1)]), r.below(3))
+    clean, hostile = [], []
+    for c, (img, ctl) in out.items():
+        (clean if raw_class(img, ctl) == "clean" else hostile).append(c)
+    return clean, hostile, out
+
+
+def judge_raw(images):
+    def judge(case, outp):
+        w = case.split()
+        if w[0] != "cmsgraw" or case not in images:
+            return None if outp == "bad-op" else "malformed line accepted"
+        img, ctl = images[case]
+        hs, stop = py_walk(img, ctl)
+        exp = fmt_rights(py_rights(img, hs))
+        if outp == exp:
+            return None
+        cls = raw_class(img, ctl)
+        where = "" if stop[0] == "done" else " (first header that is not CMSG_OK: offset %d, cmsg_len %d, level %d, type %d)" % stop[1:]
+        if cls == "hostile-rights":
+            return "malformed SCM_RIGHTS header: the iterator does not stop at it%s: %s, the well-formed prefix holds [%s]" % (where, outp[:60], exp[:60])
+        if cls == "hostile-overflow":
+            return "foreign header with cmsg_len within 23 of 2^64: alignment arithmetic overflows%s: %s" % (where, outp[:40])
+        if outp.startswith("signal") or outp == "panic":
+            return "iter_in_bounds / no crash: the iterator crashed (%s) on a control buffer%s" % (outp, where)
+        if outp.startswith("oob"):
+            return "iter_in_bounds: a slice outside [msg_control, msg_control + msg_controllen) was handed out%s: %s" % (where, outp[:60])
+        return "iter_exact: iterator returned [%s], the well-formed prefix holds [%s]%s" % (outp[:60], exp[:60], where)
+    return judge
+
+
+def sig_raw(case, outp, why):
+    return {"stream": "cmsgraw", "why": why.split(":")[0]}
+
+
 # ------------------------------------------------------------------ observations on real sockets
 
 def gen_obs(ctx, thorough):
@@ -443,6 +650,12 @@ def gen_obs(ctx, thorough):
     ms = [0, 1, 5, 20, 50] + ([200, 500] if thorough else [])
     for m in ms:
         cases += ["timedaccept unix %d" % m, "timedaccept tcp %d" % m, "timedread %d" % m]
+    # a stream from EVERY constructor, peer silent: the time-limited read reports Timeout within [limit, limit + slack]
+    for m in ([0, 5, 30] if not thorough else [0, 1, 5, 30, 120]):
+        for ctor in ("accept", "accept_with_timeout", "try_accept", "connect", "try_connect"):
+            cases.append("timedfrom unix %s %d" % (ctor, m))
+        for ctor in ("accept", "accept_with_timeout", "try_accept", "connect", "connect_with_timeout", "try_connect", "connect_blocking"):
+            cases.append("timedfrom tcp %s %d" % (ctor, m))
     cases += ["tryidle unix", "tryidle tcp"] * 3
     for d in ([0, 10, 40] if not thorough else [0, 5, 10, 40, 150]):
         cases += ["blockaccept unix %d" % d, "blockaccept tcp %d" % d, "blockread unix %d" % d, "blockread tcp %d" % d]
@@ -474,6 +687,28 @@ def judge_obs(case, out):
             return "time-limited call on an idle socket did not report Timeout: " + out[:80]
         if int(d["elapsed"]) < ms * 1000000:
             return "Timeout reported after %s ns, before the limit of %d ms" % (d["elapsed"], ms)
+        if int(d["elapsed"]) > ms * 1000000 + RAW_SLACK_NS:
+            return "Timeout reported after %s ns, later than the limit of %d ms + slack" % (d["elapsed"], ms)
+        return None
+    if w[0] == "timedfrom":
+        ms = int(w[3])
+        what = "stream from %s::%s" % (w[1], w[2])
+        if out.startswith("signal 14"):
+            return "time-limited read never timed out: %s with a silent peer blocked until the watchdog" % what
+        if d.get("nonblock") != "1":
+            return "time-limited read cannot time out: %s is a blocking socket: %s" % (what, out[:80])
+        if w[1] == "tcp":
+            if not out.startswith("timeout "):
+                return "time-limited read on an idle stream did not report Timeout: %s: %s" % (what, out[:80])
+            if int(d["elapsed"]) < ms * 1000000:
+                return "Timeout reported before the limit: %s after %s ns, limit %d ms" % (what, d["elapsed"], ms)
+            if int(d["elapsed"]) > ms * 1000000 + RAW_SLACK_NS:
+                return "Timeout reported later than limit + slack: %s after %s ns, limit %d ms" % (what, d["elapsed"], ms)
+            if d.get("polls") != "1":
+                return "time-limited read on an idle stream: expected read, ppoll(limit): %s: %s" % (what, out[:80])
+            return None
+        if not out.startswith("wouldblock ") or int(d["elapsed"]) > RAW_SLACK_NS:
+            return "read(2) on an idle stream did not come back at once with EAGAIN: %s: %s" % (what, out[:80])
         return None
     if w[0] == "tryidle":
         if not out.startswith("none "):
@@ -584,6 +819,49 @@ def run(ctx):
         ctx.count(("kfill", min(n, 4), "small" if L < need else ("exact" if L == need else "roomy"), L % 8))
         ctx.hist("kfill_buffer", "smaller" if L < need else ("equal" if L == need else "larger"))
 
+    # 3b. arbitrary control-buffer contents against a guard page: valid lists of rights / credentials / unknown messages,
+    # controllen moved, one header field mutated at a time, chains of minimal headers, random
+    rclean, rhostile, images = gen_raw(ctx, thorough)
+    jr = judge_raw(images)
+    C.correspond(ctx, "cmsgraw", rclean, [exe], drv, jr, sig_raw, timeout=1800)
+    # the two input classes on which the code as it is does NOT satisfy the statement (known findings): model and
+    # implementation must still agree line by line (judge=None: any disagreement is reported), the oracle is applied after
+    C.correspond(ctx, "cmsghostile", rhostile, [exe], drv, None, None, timeout=1800)
+    _, houts, _ = C.run_filter([exe], rhostile, timeout=1800)
+    for c, o in zip(rhostile, houts):
+        why = jr(c, o)
+        if why:
+            ctx.violation(sig_raw(c, o, why), {"stream": "cmsghostile", "case": c, "implementation": o, "why": why,
+                                                "how_to_replay": "echo '%s' | %s" % (c, exe)})
+        ctx.hist("cmsg_hostile_outcomes", o.split()[0] if not o.startswith("signal") else o)
+    # the Lean specification walk (CMSG_OK + both steppings) against this file's oracle, on every image
+    allraw = rclean + rhostile
+    _, wouts, werr = C.run_filter(drv, [c.replace("cmsgraw", "cmsgwf", 1) for c in allraw], timeout=1800)
+    ctx.evaluations += len(allraw)
+    wbad = 0
+    if len(wouts) != len(allraw):
+        ctx.violation({"stream": "cmsgwf", "kind": "driver-failed"}, {"stderr": werr.splitlines()[-5:]}, no_input=True)
+    for c, o in zip(allraw, wouts):
+        img, ctl = images[c]
+        hu, su = py_walk(img, ctl)
+        hk, sk = py_walk(img, ctl, kernel=True)
+        exp = "u %s k %s rights %s" % (fmt_walk(hu, su), fmt_walk(hk, sk), fmt_rights(py_rights(img, hu)))
+        if o != exp:
+            wbad += 1
+            ctx.violation({"stream": "cmsgwf", "kind": "spec-oracle-disagreement"},
+                          {"case": c.replace("cmsgraw", "cmsgwf", 1), "lean_spec": o, "python_oracle": exp}, no_input=True)
+        cls = raw_class(img, ctl)
+        nforeign = sum(1 for h in hu if not (h[2] == 1 and h[3] == 1))
+        trailing = len(hk) - len(hu) if sk[0] == "done" and su[0] == "done" else (1 if sk != su else 0)
+        ctx.count(("cmsgraw", cls, su[0], min(len(hu), 3), min(nforeign, 2), ctl % 8, trailing,
+                   ("short" if su[2] < 16 else "huge" if su[2] >= 2**63 else "long") if su[0] == "malformed" else "-"))
+        ctx.hist("cmsgraw_class", cls)
+        ctx.hist("cmsgraw_stop", su[0] + ("" if su[0] == "done" else ("-rights" if (su[3], su[4]) == (1, 1) else "-foreign")))
+        ctx.hist("cmsgraw_trailing_slot_header_seen_only_by_kernel_walk", trailing)
+    ctx.extra.setdefault("streams", {})["cmsgwf"] = {"cases": len(allraw), "disagreements": wbad}
+    if rclean:
+        ctx.sample({"case": rclean[len(rclean) // 2][:200], "expected": fmt_rights(py_rights(*[images[rclean[len(rclean) // 2]][0], py_walk(*images[rclean[len(rclean) // 2]])[0]]))})
+
     # 4. observations on real sockets (implementation vs oracle only)
     ocases = gen_obs(ctx, thorough)
     # a small probe batch first: when real transfers hang (each costs a watchdog period) the remaining cases add
@@ -613,6 +891,10 @@ def run(ctx):
             obs["writer_waited_for_readiness"] += 1 if int(d.get("wpoll", "0")) > 0 else 0
             obs["reader_waited_for_readiness"] += 1 if int(d.get("rpoll", "0")) > 0 else 0
             ctx.count(("stream", w[1], min(int(w[2]).bit_length() // 4, 6), int(d.get("wpoll", "0")) > 0, int(d.get("rpoll", "0")) > 0, w[8]))
+        elif w[0] == "timedfrom":
+            obs["timed"] += 1
+            ctx.count((w[0], w[1], w[2], o.split()[0], w[3] == "0"))
+            ctx.hist("timed_stream_constructors", w[1] + "::" + w[2])
         elif w[0].startswith("timed"):
             obs["timed"] += 1
             ctx.count((w[0], w[1] if w[0] == "timedaccept" else "tcp", o.split()[0]))
